@@ -102,7 +102,10 @@ fn run_history_s<S: HB>(cfg: &HistCfg, mut src: Source, out: &mut RunOut, opts: 
     let hk = cfg.hk;
     let fresh_cap = move |n: usize| -> usize {
         let mut m = fresh_cell.borrow_mut();
-        *m.entry(n).or_insert_with(|| S::make(0, Some(n), hk).capacity())
+        // "the smallest table size holding n entries" is asked of hashbrown itself (a table's capacity does not depend on the
+        // element type), not of the cache's constructor, which is free to request more than the minimum
+        let _ = hk;
+        *m.entry(n).or_insert_with(|| hashbrown::raw::RawTable::<u64>::with_capacity(n).capacity())
     };
     let lean = opts.lean;
     let obs_opts = |len: usize, step: usize| ObsOpts {
